@@ -60,6 +60,35 @@ Check C14_unambiguous : forall ps qs : list piece,
   render ps = render qs -> ps = qs.
 Print Assumptions C14_unambiguous.
 
+(** the side condition is NECESSARY: whatever the input, the lexer never ends a token where [follow_ok]
+    fails (outside the deliberately coarse cases [conservative]: signed / hex / binary integer glued to a
+    letter, '#', directives) ... *)
+Theorem C14_follow_necessary : forall (s : stext) (k : TokenKind) (a rest : stext),
+  lex_one s = (k, None, a, rest) -> conservative k a = false -> follow_ok k rest = true.
+Proof. exact LexConform.follow_necessary. Qed.
+Check C14_follow_necessary : forall (s : stext) (k : TokenKind) (a rest : stext),
+  lex_one s = (k, None, a, rest) -> conservative k a = false -> follow_ok k rest = true.
+Print Assumptions C14_follow_necessary.
+
+(** ... so for piece lists without those cases it is EXACT: the lexer returns the pieces iff none is merged *)
+Theorem C14_side_condition_exact : forall ps : list piece,
+  forallb valid_piece_d ps = true -> no_conservative ps = true ->
+  (lex_text (render ps) = expected_tokens ps <-> not_merged ps = true).
+Proof. exact LexConform.side_condition_exact. Qed.
+Check C14_side_condition_exact : forall ps : list piece,
+  forallb valid_piece_d ps = true -> no_conservative ps = true ->
+  (lex_text (render ps) = expected_tokens ps <-> not_merged ps = true).
+Print Assumptions C14_side_condition_exact.
+
+(** meaning of the generated Unicode range tables (char::is_whitespace / is_alphabetic of the Rust std):
+    membership in a table row; the rows themselves are compared with the std on every scalar value by the check *)
+Theorem C14_unicode_tables : forall (rs : list (N * N)) (c : N),
+  in_ranges rs c = true <-> exists lo hi, In (lo, hi) rs /\ lo <= c /\ c <= hi.
+Proof. exact LexConform.in_ranges_spec. Qed.
+Check C14_unicode_tables : forall (rs : list (N * N)) (c : N),
+  in_ranges rs c = true <-> exists lo hi, In (lo, hi) rs /\ lo <= c /\ c <= hi.
+Print Assumptions C14_unicode_tables.
+
 (** tokens separated by well-formed gaps (the form of the property statement): the side condition holds *)
 Theorem C14_separated : forall ps : list piece,
   forallb valid_piece ps = true -> separated ps = true -> not_merged ps = true.
@@ -109,3 +138,14 @@ Example C14_nested_comments_nonvacuous :
   let es := [CCh 97; CO; CCh 42; CCh 32; CO; CC; CCh 47; CCh 32; CC; CCh 42; CCh 42; CC] in
   cev_closed O es = true /\ cev_clean es = true.
 Proof. vm_compute. split; reflexivity. Qed.
+
+(** merged pieces: the lexer output differs (both directions of C14_side_condition_exact are non-vacuous) *)
+Example C14_side_condition_nonvacuous :
+  let bad := [ P T_Id "a"; P T_Id "b" ]%string in
+  let bad2 := [ P T_Minus "-"; P T_IntVal "1" ]%string in
+  forallb valid_piece_d bad = true /\ no_conservative bad = true /\ not_merged bad = false
+  /\ lex_text (render bad) = expected_tokens [ P T_Id "ab" ]%string
+  /\ no_conservative bad2 = true /\ not_merged bad2 = false
+  /\ lex_text (render bad2) = expected_tokens [ P T_IntVal "-1" ]%string
+  /\ no_conservative ex_pieces = false /\ conservative T_IntVal (cps "0x1F") = true.
+Proof. vm_compute. repeat split; reflexivity. Qed.
